@@ -422,7 +422,98 @@ class Taint:
             return False
         return self.op_sanitised(b, other, block, depth=depth + 1) is not None
 
+    SHRINKERS = ('remove', 'swap_remove', 'pop', 'truncate', 'retain', 'retain_mut', 'clear', 'drain', 'dedup', 'dedup_by', 'dedup_by_key', 'split_off',
+                 'iter', 'iter_mut', 'len', 'is_empty', 'get', 'get_mut', 'first', 'last', 'contains', 'as_slice', 'deref', 'deref_mut', 'index', 'index_mut',
+                 'binary_search', 'sort', 'sort_unstable', 'reverse', 'as_mut_slice', 'position')
+
+    def _len_call(self, b, op, depth=0):
+        """the `len()` call an operand is (a copy of), or None"""
+        if op['k'] not in ('copy', 'move') or op['pl']['p'] or depth > 5:
+            return None
+        ds = b.defs().get(op['pl']['l'], [])
+        if len(ds) != 1:
+            return None
+        d = ds[0]
+        if d[0] == 'call' and 'q' in d[1]['callee'] and callee_q(d[1]).endswith('::len') and d[1]['args']:
+            return d
+        if d[0] == 'assign' and d[1]['rv']['k'] in ('use', 'cast') and d[1]['rv']['op']['k'] in ('copy', 'move'):
+            return self._len_call(b, d[1]['rv']['op'], depth + 1)
+        return None
+
+    def shrinking_lens(self, b, aops):
+        """`earlier_len - later_len` of one list: fine when, in this function, the list is only ever handed by `&mut` to methods
+        that cannot make it longer and the minuend's len() comes first on every path"""
+        ca, cb = self._len_call(b, aops[0]), self._len_call(b, aops[1])
+        if ca is None or cb is None:
+            return False
+        ba, bb = b.base_of(ca[1]['args'][0]), b.base_of(cb[1]['args'][0])
+        if not ba or not bb or ba[0] != bb[0] or [x[1] for x in ba[1]] != [x[1] for x in bb[1]]:
+            return False
+        if ca[2] not in b.dominators().get(cb[2], ()) and ca[2] != cb[2]:
+            return False
+        root, path = ba[0], [x[1] for x in ba[1]]
+        for bi in b.live:
+            for st in b.blocks[bi]['stmts']:
+                if st['k'] == 'assign' and st['pl']['p']:
+                    pb = b.base_of_place(st['pl'])
+                    if pb and pb[0] == root and [x[1] for x in pb[1]][:len(path)] == path and len(pb[1]) <= len(path):
+                        return False        # the list itself is overwritten
+        for bi, t in b.calls():
+            for a in t['args']:
+                if a['k'] not in ('copy', 'move'):
+                    continue
+                ty = b.lty(a['pl']['l'])
+                if not (ty.get('k') == 'ref' and ty.get('mut')):
+                    continue
+                ab = b.base_of(a)
+                if ab and ab[0] == root and [x[1] for x in ab[1]][:len(path)] == path:
+                    name = callee_q(t).split('::')[-1] if 'q' in t['callee'] else '?'
+                    if name not in self.SHRINKERS:
+                        return False
+        return True
+
+    def capture_guarded(self, b, op):
+        """inside a closure handed to `Option::map / and_then / filter / ..` on the result of `list.get(i)`, the captured i is in
+        range: the closure only runs for `Some`"""
+        if b.raw['kind'] != 'Closure' or b.raw.get('coroutine') or op['k'] not in ('copy', 'move'):
+            return False
+        base = b.base_of(op)
+        if not base or base[0] != 1 or not base[1] or not isinstance(base[1][0][1], int):
+            return False
+        n = base[1][0][1]
+        par = self.f.bodies.get(b.raw.get('parent') or '')
+        if par is None:
+            return False
+        for bi in par.live:
+            for st in par.blocks[bi]['stmts']:
+                if not (st['k'] == 'assign' and st['rv']['k'] == 'agg' and st['rv'].get('ak') == 'closure' and st['rv'].get('body') == b.id
+                        and n < len(st['rv']['ops']) and not st['pl']['p']):
+                    continue
+                cap = st['rv']['ops'][n]
+                find = par.alias_classes()
+                cl = find(st['pl']['l'])
+                for cbi, ct in par.calls():
+                    if 'q' not in ct['callee'] or not callee_q(ct).startswith('core::option::Option::') or \
+                            callee_q(ct).split('::')[-1] not in ('map', 'and_then', 'filter', 'map_or', 'is_some_and', 'then', 'inspect'):
+                        continue
+                    if not any(a['k'] in ('copy', 'move') and not a['pl']['p'] and find(a['pl']['l']) == cl for a in ct['args'][1:]):
+                        continue
+                    r = ct['args'][0]
+                    if r['k'] not in ('copy', 'move') or r['pl']['p']:
+                        continue
+                    for d in par.defs().get(r['pl']['l'], []):
+                        if d[0] == 'call' and 'q' in d[1]['callee'] and callee_q(d[1]).split('::')[-1] in ('get', 'get_mut') and len(d[1]['args']) == 2 and \
+                                (callee_q(d[1]).startswith('[T]::') or 'slice' in callee_q(d[1]) or 'Vec' in callee_q(d[1])):
+                            ki = self.vkey(par, d[1]['args'][1])
+                            cb = par.base_of(cap) if cap['k'] in ('copy', 'move') else None
+                            kc = self.vkey(par, {'k': 'copy', 'pl': {'l': cb[0], 'p': []}}) if cb and not cb[1] else None
+                            if ki is not None and ki == kc:
+                                return True
+        return False
+
     def op_sanitised(self, b, op, block, zero=False, depth=0):
+        if not zero and self.capture_guarded(b, op):
+            return -1
         key = self.vkey(b, op)
         if key is None:
             return None
@@ -693,6 +784,8 @@ class Taint:
                         if ak == 'BoundsCheck' and len(aops) == 2 and self.const_of(b, aops[1]) is not None \
                                 and self.fixed_window(b) > self.const_of(b, aops[1]):
                             guards = [-1 for _ in ops]      # item of windows(n) / chunks_exact(n): exactly n elements by contract
+                        if ak == 'Overflow(Sub)' and len(aops) == 2 and self.shrinking_lens(b, aops):
+                            guards = [-1 for _ in ops]      # an earlier length minus a later length of a list that only shrinks in between
                         ok = all(g is not None for g in guards)
                         out.append(self.site(b, ak, aops, t['loc'], m, ok, guards, dest=self.result_dest(b, t)))
                 elif t['k'] == 'call' and 'q' in t['callee']:
@@ -906,7 +999,12 @@ class Taint:
                 s = cap
                 fields = fields[1:]
         if getattr(self, '_roles', False):
-            s += ''.join('.' + self.field_tag(x[0], x[1]) for x in fields)
+            tags = [self.field_tag(x[0], x[1]) for x in fields]
+            # a hop through a private struct of the crate that merely groups fields (`self.progress.chunk_index`) is not part of
+            # what identifies the value
+            local_names = {a.split('::')[-1] for a in self.f.adts}
+            tags = [t_ for i_, t_ in enumerate(tags) if not (t_.startswith('#') and t_[1:] in local_names and i_ + 1 < len(tags))]
+            s += ''.join('.' + t_ for t_ in tags)
         else:
             s += ''.join('.' + str(x[1]) for x in fields)
         if any(p['k'] in ('index', 'constindex', 'subslice') for p in pl['p']):
